@@ -98,7 +98,7 @@ STAGES_ALL = sorted(SR.STAGES)
 def gen(rng, tier, index):
     n = rng.choice([2, 3, 4, 5, 6, 8])
     faults = rng.random() < 0.5
-    source = rng.choice(["lazy", "lazy", "lazy", "lazy", "iterator", "iterate", "repeatedly"])
+    source = rng.choice(["lazy", "lazy", "lazy", "lazy", "iterator", "iterate", "repeatedly", "iterable"])
     cells = []
     for i in range(n + 1):
         c = {"sleep": 0, "throw_first": False, "touch": None, "points": rng.choice([1, 2])}
@@ -113,11 +113,11 @@ def gen(rng, tier, index):
             elif r < 0.2 and i + 1 <= n:
                 c["touch"] = rng.randrange(i + 1, n + 1)
         cells.append(c)
-    if faults and source in ("iterator", "iterate", "repeatedly"):
+    if faults and source in ("iterator", "iterate", "repeatedly", "iterable"):
         for c in cells:
             if rng.random() < 0.2:
                 c["sleep"] = 0.01
-        if source == "iterator" and rng.random() < 0.3:
+        if source in ("iterator", "iterable") and rng.random() < 0.3:
             cells[rng.randrange(n)]["throw_first"] = True
     depth = rng.choice([0, 0, 1, 1, 1, 2, 2, 3])
     pipeline = []
@@ -214,6 +214,7 @@ def describe():
         "stub": ["blocking slow path of the cell mutex (replaced by kernel.spin through the guarded hook)",
                  "OS scheduler", "clock"],
         "fault_kinds": ["producer_throw", "producer_sleep", "producer_touch_later", "producer_touch_self", "iterator_throw"],
+        "sources": ["lazy-seq cells", "single-use iterator (iterator-seq)", "iterate", "repeatedly", "re-iterable non-seq Python object handed raw to the first stage"],
         "assumptions": ["the blocking native wait is covered only by the declared real-thread probe (c06_probe.py)",
                         "a producer never touches an earlier cell (that is a lock-order cycle in Clojure too)"],
         "hashseeds": [0],
@@ -353,6 +354,55 @@ def run(workload, k):
                 finally:
                     st["active"][min(i, n)] -= 1
         head = _fns["iterator-seq"](It())
+    elif source == "iterable":
+        # a re-iterable Python object that is NOT a seq (every __iter__ opens a fresh cursor) handed raw to the
+        # first stage: the stage must coerce it once, or its elements are produced once per coercion
+        class Cur:
+            def __init__(self):
+                self.i = 0
+
+            def __iter__(self):
+                return self
+
+            def __next__(self):
+                i = self.i
+                cfg, nth = on_produce(min(i, n))
+                try:
+                    P.point("iterable")
+                    if cfg["sleep"]:
+                        fault("producer_sleep")
+                        P.sleep(cfg["sleep"])
+                    if cfg["throw_first"] and nth == 1 and i < n:
+                        fault("iterator_throw")
+                        st["throws"].append((k.ev("pthrow", i), k.cur.name, i))
+                        raise Boom(f"iterable element {i}")
+                    self.i += 1
+                    st["ok_returns"][min(i, n)] += 1
+                    if i >= n:
+                        raise StopIteration
+                    return 10 * i
+                finally:
+                    st["active"][min(i, n)] -= 1
+
+        class Reiterable:
+            def __iter__(self):
+                st["opens"] = st.get("opens", 0) + 1
+                # one cursor, plus one more for every injected failure (a failed producer is re-run, and re-running
+                # the cell that coerces the iterable opens it again): anything beyond is a second coercion
+                if st["opens"] > 1 + len(st["throws"]):
+                    viol(f"{ID}/iterable-coerced-again", {"opens": st["opens"], "injected_failures": len(st["throws"])})
+                # at-most-once is per cursor
+                for i_ in range(n + 1):
+                    st["calls"][i_] = 0
+                    st["ok_returns"][i_] = 0
+                return Cur()
+        head = Reiterable()
+        pl = workload["pipeline"]
+        # no stage at all, a stage that by definition walks its argument twice (drop-last = map over coll and
+        # (drop n coll)), or flatten (which answers () for anything not sequential?): coerce first
+        if not pl or pl[0] in ("drop-last", "flatten"):
+            raw = head
+            head = lseq.LazySeq(lambda: raw)          # coerced once, when first asked for
     elif source == "repeatedly":   # element i = the i-th call of f
         rp = {"i": 0}
 
